@@ -398,13 +398,21 @@ pub fn run(file: &str) {
         // filled through reparse)
         let ms = if cols.iter().all(|c| c.parsed.is_some()) {
             let mut mp = MultiPattern::new(cols.len());
+            // every column has a HISTORY: it held another non-empty pattern before (a reparse must replace the
+            // previous atoms whatever the new text is, the empty / whitespace-only text included)
+            let mut reparse_ok = true;
             for (k, c) in cols.iter().enumerate() {
                 let (t, cm, nm) = c.parsed.as_ref().unwrap();
+                mp.reparse(k, "zzq !yy ^w 'v$", *cm, *nm, false);
                 mp.reparse(k, t, *cm, *nm, false);
-                assert_eq!(mp.column_pattern(k).atoms, c.pat.atoms);
+                reparse_ok &= mp.column_pattern(k).atoms == c.pat.atoms;
             }
             let mut v = Vec::new();
             for r in &rows {
+                if !reparse_ok {
+                    v.push("X-reparse-differs-from-parse".to_string());
+                    continue;
+                }
                 let hs: Vec<Utf32String> = r.iter().map(|t| Utf32String::from(t.as_str())).collect();
                 let mut buf2 = Vec::new();
                 if r.iter().zip(&hs).any(|(t, h)| h.slice(..) != Utf32Str::new(t, &mut buf2)) {
